@@ -28,9 +28,13 @@ extern "C" unsigned long rbcstub_wrandom_mod(unsigned long m) { return 0; }
 //   digest in [0, 2^H_DBITS) different from all digests handed out before.
 // ID = H(text) (setID): texts numbered 1,2,3.. in order of first use (injective).
 #define RBC_DMAX 6
-static bool rbc_hash_symbolic = false;
+// third mode (rbc_oracle_on): the harness predicts the argument of every payload-hash call (it is the one symbolic payload of the
+// run) and fixes its digest to a concrete value; the stub asserts the prediction instead of branching on it, so a run with a
+// symbolic payload keeps concrete map keys.  A wrong prediction is a failed assertion, never a silently wrong digest.
+static bool rbc_hash_symbolic = false, rbc_oracle_on = false; static long rbc_oracle_val = 0, rbc_oracle_digest = 1;
 static long rbc_dkey[RBC_DMAX]; static long rbc_dout[RBC_DMAX]; static unsigned rbc_dn = 0;
 static long rbc_digest(long x) {
+  if (rbc_oracle_on) { vf_assert(x == rbc_oracle_val, "payload hash is only applied to the broadcast payload (harness prediction)"); return rbc_oracle_digest; }
   for (unsigned e = 0; e < RBC_DMAX; ++e) { if (e >= rbc_dn) break; if (rbc_dkey[e] == x) return rbc_dout[e]; }
   if (rbc_dn >= RBC_DMAX) { __vf_model_bound(); return 0; }
   long o;
@@ -131,6 +135,7 @@ H_ENTRY(h_honest) {
   mkparties();
   long mv = vfh_range(-3, 200);
   Z m(mv);
+  rbc_oracle_on = true; rbc_oracle_val = mv; rbc_oracle_digest = 5;
   rbc[H_SENDER]->Broadcast(m);
   vf_assert(net_sent == H_N, "Broadcast sends one r-send per party");
   unsigned ndel[H_N]; for (unsigned i = 0; i < H_N; ++i) ndel[i] = 0;
@@ -155,5 +160,197 @@ H_ENTRY(h_honest) {
     vf_assert(!rbc[i]->Deliver(out, from, aiounicast::aio_scheduler_roundrobin, 0) && from == H_N, "a further Deliver returns nothing");
     for (unsigned k = 0; k < H_N; ++k) vf_assert(rbc[i]->buf_msg[k].size() == 0, "buf_msg stays empty");
   }
+  H_END();
+}
+
+// ---------------------------------------------------------------- 2. single-step obligations: one real party (P1 of n=4, t=1)
+// the other three parties are played by the harness: it puts messages on P1's incoming links and reads what P1 sent
+#define ME 1u
+#define A_SEND 1
+#define A_ECHO 2
+#define A_READY 3
+#define A_REQUEST 4
+#define A_ANSWER 5
+static CachinKursawePetzoldShoupRBC *P = 0;
+static void mkone() { net[ME] = new Net(H_N, ME); rbc[ME] = new CachinKursawePetzoldShoupRBC(H_N, H_T, ME, net[ME], aiounicast::aio_scheduler_roundrobin, 0); P = rbc[ME]; net_mode = NET_LINK; }
+static void inject(unsigned from, long id, long j, long s, long act, long v) { nq_push(from, ME, id, j, s, act, v); }
+static unsigned inbox() { unsigned c = 0; for (unsigned f = 0; f < H_N; ++f) c += nq_len(f, ME); return c; }
+static long st_val; static size_t st_from;
+static bool step(unsigned link) { net_link = link; Z out(-7); st_from = 99; bool g = P->Deliver(out, st_from, aiounicast::aio_scheduler_roundrobin, 0); st_val = out.get(); return g; }
+static unsigned sent_to(unsigned to) { return nq_tail[ME * H_N + to]; }
+static long sent_hdr(unsigned to, unsigned idx, unsigned f) { return nq_hdr[ME * H_N + to][idx * 4 + f]; }
+static long sent_val(unsigned to, unsigned idx) { return nq_val[ME * H_N + to][idx]; }
+static bool sent_all(unsigned cnt) { bool ok = true; for (unsigned k = 0; k < H_N; ++k) if (sent_to(k) != cnt) ok = false; return ok; }
+// a complete quorum for slot (id, sender, s) with payload v whose digest is d: r-send on the sender's link, readys on three links
+static void quorum(long id, long sender, long s, long v, long d, unsigned r0, unsigned r1, unsigned r2) {
+  inject((unsigned)sender, id, sender, s, A_SEND, v);
+  inject(r0, id, sender, s, A_READY, d); inject(r1, id, sender, s, A_READY, d); inject(r2, id, sender, s, A_READY, d);
+}
+
+// (a) r-send whose claimed originator is not the link it arrived on: no echo, nothing stored
+// (b) first genuine r-send: echo H(m) to everybody; a second r-send for the same tag (same link or another link): ignored
+H_ENTRY(h_step_send) {
+  mkone(); rbc_hash_symbolic = true;
+  long x = vfh_range(-2, 40), y = vfh_range(-2, 40);
+  inject(2, 0, 0, 1, A_SEND, x);
+  vf_assert(!step(2) && sent_all(0) && P->mbar.size() == 0, "r-send naming party 0 arriving from party 2: no echo, no payload stored");
+  inject(2, 0, 3, 1, A_SEND, x);
+  vf_assert(!step(2) && sent_all(0) && P->mbar.size() == 0, "r-send naming party 3 arriving from party 2: no echo, no payload stored");
+  inject(2, 0, 2, 1, A_SEND, x);
+  vf_assert(!step(2) && sent_all(1), "genuine r-send: one message to every party, no delivery");
+  long dx = rbc_digest(x);
+  for (unsigned k = 0; k < H_N; ++k)
+    vf_assert(sent_hdr(k, 0, 0) == 0 && sent_hdr(k, 0, 1) == 2 && sent_hdr(k, 0, 2) == 1 && sent_hdr(k, 0, 3) == A_ECHO && sent_val(k, 0) == dx, "the message is the echo of the tag with the digest of the payload");
+  vf_assert(P->mbar.size() == 1 && vfh_val(P->mbar.begin()->second) == x, "payload stored");
+  inject(2, 0, 2, 1, A_SEND, y);
+  vf_assert(!step(2) && sent_all(1) && vfh_val(P->mbar.begin()->second) == x, "second r-send for the tag from the same party: ignored");
+  inject(3, 0, 2, 1, A_SEND, y);
+  vf_assert(!step(3) && sent_all(1) && vfh_val(P->mbar.begin()->second) == x, "r-send for the tag relayed by another party: ignored");
+  H_END();
+}
+
+// (c) ready counting: duplicates and readys for another digest do not count; own ready after t+1; delivery exactly at 2t+1
+H_ENTRY(h_step_ready) {
+  mkone();
+  const long M = 10, DP = 9;
+  inject(0, 0, 0, 1, A_SEND, M);
+  vf_assert(!step(0) && sent_all(1), "r-send: echo, no delivery");
+  long D = rbc_digest(M);
+  inject(0, 0, 0, 1, A_ECHO, D); inject(2, 0, 0, 1, A_ECHO, D); inject(3, 0, 0, 1, A_ECHO, D);
+  vf_assert(!step(0) && !step(2) && sent_all(1), "n-t-1 echoes: nothing");
+  vf_assert(!step(3) && sent_all(2), "n-t echoes for one digest: own ready sent, no delivery");
+  for (unsigned k = 0; k < H_N; ++k) vf_assert(sent_hdr(k, 1, 3) == A_READY && sent_val(k, 1) == D && sent_hdr(k, 1, 1) == 0 && sent_hdr(k, 1, 2) == 1, "own ready carries that digest");
+  inject(0, 0, 0, 1, A_READY, D);  vf_assert(!step(0) && sent_all(2), "first ready: nothing");
+  inject(0, 0, 0, 1, A_READY, D);  vf_assert(!step(0) && sent_all(2), "same ready again from the same party: nothing");
+  inject(2, 0, 0, 1, A_READY, DP); vf_assert(!step(2) && sent_all(2), "ready for another digest: nothing");
+  inject(2, 0, 0, 1, A_READY, D);  vf_assert(!step(2) && sent_all(2), "party 2 sends a second ready, now with the first digest: not counted");
+  vf_assert(!step(1) && !step(1) && sent_all(2), "own echo and own ready (second distinct ready): no delivery, no second own ready");
+#ifdef H_D3
+  long d3 = (H_D3 == 0) ? D : (long)H_D3;          // slice: digest carried by the ready of the third distinct party
+#else
+  rbc_hash_symbolic = true;
+  long d3 = vfh_range(-1, (1 << H_DBITS) + 1);
+#endif
+  inject(3, 0, 0, 1, A_READY, d3);
+  bool g = step(3);
+  vf_assert(g == (d3 == D), "third distinct party: delivery exactly if its ready carries the same digest");
+  vf_assert(!g || (st_val == M && st_from == 0), "delivered value and sender");
+  bool more = step(3);
+  vf_assert(!more, "nothing further");
+  H_END();
+}
+
+// (d) payload retrieval: the party stored m' from the r-send, the quorum agreed on the digest of m: r-request goes out, an
+// r-answer is accepted exactly if it hashes to the agreed digest, the delivered value is m (not m'), no second delivery
+#ifndef H_NOFIFO
+#define H_NOFIFO 0
+#endif
+H_ENTRY(h_step_answer) {
+  mkone();
+  long id = 0;
+  if (H_NOFIFO) { P->setID("a", false); id = vfh_val(P->ID); }
+  const long M = 10, MP = 11;
+  long dM = rbc_digest(M);
+  inject(0, id, 0, 1, A_SEND, MP);
+  vf_assert(!step(0) && sent_all(1), "r-send with m': echo");
+  inject(0, id, 0, 1, A_READY, dM); inject(2, id, 0, 1, A_READY, dM); inject(3, id, 0, 1, A_READY, dM);
+  vf_assert(!step(0) && sent_all(1), "ready 1");
+  vf_assert(!step(2) && sent_all(2), "ready 2: own ready");
+  vf_assert(!step(3), "2t+1 readys for H(m) while m' is stored: no delivery yet");
+  vf_assert(sent_to(0) == 3 && sent_to(1) == 3 && sent_to(2) == 3 && sent_to(3) == 2, "r-request sent to 2t+1 parties");
+  vf_assert(sent_hdr(2, 2, 3) == A_REQUEST && sent_hdr(2, 2, 1) == 0 && sent_hdr(2, 2, 2) == 1, "it is the request for this tag");
+#ifdef H_X
+  long x = H_X;                                    // slice: payload of the first r-answer
+#else
+  rbc_hash_symbolic = true;
+  long x = vfh_range(-2, 40);
+#endif
+  inject(2, id, 0, 1, A_ANSWER, x);
+  bool g = step(2);
+  vf_assert(g == (x == M), "r-answer accepted exactly if its payload hashes to the agreed digest");
+  vf_assert(!g || (st_val == M && st_from == 0), "the delivered value is the payload of the agreed digest, not the one received by r-send");
+  vf_assert(g || vfh_val(P->mbar.begin()->second) == MP, "a refused answer leaves the stored payload alone");
+  bool g2 = false;
+  if (!g) { inject(3, id, 0, 1, A_ANSWER, M); g2 = step(3); }
+  vf_assert(g || (g2 && st_val == M && st_from == 0), "a later correct answer from another party is accepted and delivers m");
+  inject(0, id, 0, 1, A_ANSWER, M);
+  bool again = step(0);
+  vf_assert(!again, "a further correct answer does not deliver the slot a second time");
+  bool more = step(0);
+  vf_assert(!more, "nothing further");
+  H_END();
+}
+
+// (e) channels: a complete quorum carrying another channel id is not delivered into the current channel, the same slot numbers
+// in the current channel are delivered with their own payload, the foreign one is delivered after switching back
+H_ENTRY(h_step_chan) {
+  mkone();
+  P->setID("sub");
+  long id1 = vfh_val(P->ID);
+  vf_assert(id1 != 0, "new channel id");
+  long D10 = rbc_digest(10), D20 = rbc_digest(20);
+  quorum(0, 0, 1, 10, D10, 0, 2, 3);
+  vf_assert(!step(0) && !step(0) && !step(2) && !step(3) && !step(0), "complete quorum of the outer channel: nothing delivered inside the sub-channel");
+  quorum(id1, 0, 1, 20, D20, 0, 2, 3);
+  vf_assert(!step(0) && !step(0) && !step(2), "sub-channel slot: not yet");
+  vf_assert(step(3) && st_val == 20 && st_from == 0, "sub-channel slot delivered with its own payload");
+  vf_assert(!step(0), "nothing further in the sub-channel");
+  P->unsetID();
+  vf_assert(vfh_val(P->ID) == 0, "back in the outer channel");
+  vf_assert(step(0) && st_val == 10 && st_from == 0, "the outer-channel slot is delivered after switching back");
+  vf_assert(!step(0), "once");
+  H_END();
+}
+
+// (f) FIFO: slot 2 of a sender acknowledged before slot 1 is held back and delivered right after slot 1
+H_ENTRY(h_step_fifo) {
+  mkone();
+  long D10 = rbc_digest(10), D20 = rbc_digest(20);
+  quorum(0, 0, 2, 20, D20, 0, 2, 3);
+  vf_assert(!step(0) && !step(0) && !step(2) && !step(3), "slot 2 acknowledged first: not delivered");
+  vf_assert(P->deliver_buf.size() == 1, "held in the deliver buffer");
+  vf_assert(!step(0) && !step(0), "still not delivered (the out-of-order handler asks the others for slot 1)");
+  quorum(0, 0, 1, 10, D10, 0, 2, 3);
+  vf_assert(!step(0) && !step(0) && !step(2), "slot 1: not yet");
+  vf_assert(step(3) && st_val == 10 && st_from == 0, "slot 1 delivered first");
+  vf_assert(step(0) && st_val == 20 && st_from == 0, "slot 2 delivered next, without any further message");
+  vf_assert(!step(0) && P->deliver_buf.size() == 0, "nothing further");
+  H_END();
+}
+
+// (g) DeliverFrom: values of other senders are kept for later calls; a value kept in one channel is not handed out in another
+H_ENTRY(h_step_dfrom) {
+  mkone(); net_mode = NET_RR;
+  long D10 = rbc_digest(10);
+  quorum(0, 0, 1, 10, D10, 0, 2, 3);
+  Z out(-7);
+  bool g = P->DeliverFrom(out, 2, aiounicast::aio_scheduler_roundrobin, 30);
+  vf_assert(!g && inbox() == 0, "asking for party 2: all messages processed, nothing from party 2");
+  vf_assert(P->buf_mpz[0].size() == 1 && P->buf_mpz[2].size() == 0, "the value of party 0 is kept for a later call");
+  P->setID("sub");
+  g = P->DeliverFrom(out, 0, aiounicast::aio_scheduler_roundrobin, 4);
+  vf_assert(!g, "inside the sub-channel the value kept in the outer channel is not handed out");
+  P->unsetID();
+  g = P->DeliverFrom(out, 0, aiounicast::aio_scheduler_roundrobin, 4);
+  vf_assert(g && out.get() == 10, "back in the outer channel it is");
+  g = P->DeliverFrom(out, 0, aiounicast::aio_scheduler_roundrobin, 4);
+  vf_assert(!g, "once");
+  H_END();
+}
+// progress of DeliverFrom (candidate F5): a value of party 0 kept from the outer channel is still buffered when the caller, now
+// inside a sub-channel, asks for party 0; the wire holds a complete sub-channel broadcast of party 0
+H_ENTRY(h_dfrom_progress) {
+  mkone(); net_mode = NET_RR;
+  long D10 = rbc_digest(10), D30 = rbc_digest(30);
+  quorum(0, 0, 1, 10, D10, 0, 2, 3);
+  Z out(-7);
+  bool g = P->DeliverFrom(out, 2, aiounicast::aio_scheduler_roundrobin, 30);
+  vf_assert(!g && inbox() == 0 && P->buf_mpz[0].size() == 1, "pre-state: value of party 0 kept from the outer channel");
+  P->setID("sub");
+  long id1 = vfh_val(P->ID);
+  quorum(id1, 0, 1, 30, D30, 0, 2, 3);
+  g = P->DeliverFrom(out, 0, aiounicast::aio_scheduler_roundrobin, 30);
+  vf_assert(inbox() == 0, "DeliverFrom processes the messages on the wire");
+  vf_assert(g && out.get() == 30, "DeliverFrom returns the sub-channel broadcast of party 0 whose messages have all been handed over");
   H_END();
 }
